@@ -506,6 +506,48 @@ theorem C01.join_single (a : Ans) : join [a] = Resp.ofAns a ∧ respOf true [] =
 namespace Uniflow.WriterProofs
 open Uniflow.Pump
 
+/-- Invariant of the pump with the withdrawn repair (`Pump.stepDrain`, exit rule `drain`). -/
+theorem pump_step_inv {α : Type} (p : P α) (s : Pump.Step α)
+    (hp : p.delivered ++ p.buf = p.pushed) (hb : p.exited = true → p.buf = [] ∧ p.inClosed = true) :
+    (Pump.stepDrain p s).delivered ++ (Pump.stepDrain p s).buf = (Pump.stepDrain p s).pushed ∧
+    ((Pump.stepDrain p s).exited = true → (Pump.stepDrain p s).buf = [] ∧ (Pump.stepDrain p s).inClosed = true) := by
+  cases s with
+  | enq a =>
+    simp only [Pump.stepDrain, Pump.stepR]; split
+    · exact ⟨hp, hb⟩
+    · rename_i hic
+      refine ⟨by simp only; rw [← List.append_assoc, hp], ?_⟩
+      intro he; simp only at he
+      exact absurd (hb he).2 hic
+  | deq =>
+    simp only [Pump.stepDrain, Pump.stepR]; split
+    · exact ⟨hp, hb⟩
+    · rename_i a rest hbuf
+      refine ⟨by simp only; rw [hbuf] at hp; simpa using hp, ?_⟩
+      intro he; simp only at he
+      have := (hb he).1
+      rw [hbuf] at this; simp at this
+  | closeIn =>
+    simp only [Pump.stepDrain, Pump.stepR]
+    exact ⟨hp, fun he => ⟨(hb he).1, trivial⟩⟩
+  | exit =>
+    simp only [Pump.stepDrain, Pump.stepR]; split
+    · rename_i hc
+      simp only [Bool.and_eq_true, List.isEmpty_iff] at hc
+      exact ⟨hp, fun _ => ⟨hc.2, hc.1⟩⟩
+    · exact ⟨hp, hb⟩
+
+theorem pump_run_inv {α : Type} (p : P α) (h : List (Pump.Step α))
+    (hp : p.delivered ++ p.buf = p.pushed) (hb : p.exited = true → p.buf = [] ∧ p.inClosed = true) :
+    (Pump.runDrain p h).delivered ++ (Pump.runDrain p h).buf = (Pump.runDrain p h).pushed ∧
+    ((Pump.runDrain p h).exited = true → (Pump.runDrain p h).buf = [] ∧ (Pump.runDrain p h).inClosed = true) := by
+  induction h generalizing p with
+  | nil => exact ⟨hp, hb⟩
+  | cons s h ih =>
+    obtain ⟨h1, h2⟩ := pump_step_inv p s hp hb
+    exact ih (Pump.stepDrain p s) h1 h2
+
+/-- Invariant of the pump as it is in the code (`Pump.step`, exit rule `discard`). -/
 theorem pump_inv {α : Type} (p : P α) (h : List (Pump.Step α))
     (hp : p.exited = false → p.delivered ++ p.buf = p.pushed) (hpre : p.delivered <+: p.pushed)
     (hb : p.exited = true → p.buf = []) (hc : p.exited = true → p.inClosed = true) :
@@ -519,26 +561,26 @@ theorem pump_inv {α : Type} (p : P α) (h : List (Pump.Step α))
     apply ih
     · cases s with
       | enq a =>
-        simp only [Pump.step]; split
+        simp only [Pump.step, Pump.stepR]; split
         · exact hp
         · intro he; simp only at he ⊢; rw [← List.append_assoc, hp he]
       | deq =>
-        simp only [Pump.step]; split
+        simp only [Pump.step, Pump.stepR]; split
         · exact hp
         · rename_i a rest hbuf
           intro he; simp only at he ⊢
           have := hp he
           rw [hbuf] at this
           simpa using this
-      | closeIn => simpa [Pump.step] using hp
-      | exit => simp only [Pump.step]; split <;> simp_all
+      | closeIn => simpa [Pump.step, Pump.stepR] using hp
+      | exit => simp only [Pump.step, Pump.stepR]; split <;> simp_all
     · cases s with
       | enq a =>
-        simp only [Pump.step]; split
+        simp only [Pump.step, Pump.stepR]; split
         · exact hpre
         · exact hpre.trans (List.prefix_append _ _)
       | deq =>
-        simp only [Pump.step]; split
+        simp only [Pump.step, Pump.stepR]; split
         · exact hpre
         · rename_i a rest hbuf
           cases he : p.exited with
@@ -549,28 +591,28 @@ theorem pump_inv {α : Type} (p : P α) (h : List (Pump.Step α))
             simp only
             rw [← this]
             exact ⟨rest, by simp⟩
-      | closeIn => simpa [Pump.step] using hpre
-      | exit => simp only [Pump.step]; split <;> simpa using hpre
+      | closeIn => simpa [Pump.step, Pump.stepR] using hpre
+      | exit => simp only [Pump.step, Pump.stepR]; split <;> simpa using hpre
     · cases s with
       | enq a =>
-        simp only [Pump.step]; split
+        simp only [Pump.step, Pump.stepR]; split
         · exact hb
         · rename_i hic
           intro he; simp only at he
           exact absurd (hc he) hic
       | deq =>
-        simp only [Pump.step]; split
+        simp only [Pump.step, Pump.stepR]; split
         · exact hb
         · rename_i a rest hbuf
           intro he; simp only at he
           simp [hb he] at hbuf
-      | closeIn => simpa [Pump.step] using hb
-      | exit => simp only [Pump.step]; split <;> simp_all
+      | closeIn => simpa [Pump.step, Pump.stepR] using hb
+      | exit => simp only [Pump.step, Pump.stepR]; split <;> simp_all
     · cases s with
-      | enq a => simp only [Pump.step]; split <;> simpa using hc
-      | deq => simp only [Pump.step]; split <;> simpa using hc
-      | closeIn => simp [Pump.step]
-      | exit => simp only [Pump.step]; split <;> simp_all
+      | enq a => simp only [Pump.step, Pump.stepR]; split <;> simpa using hc
+      | deq => simp only [Pump.step, Pump.stepR]; split <;> simpa using hc
+      | closeIn => simp [Pump.step, Pump.stepR]
+      | exit => simp only [Pump.step, Pump.stepR]; split <;> simp_all
 
 end Uniflow.WriterProofs
 
@@ -605,6 +647,47 @@ theorem C01.pump_no_loss_full_false : ¬ C01.pump_no_loss_full := by
   have := hf [.enq 7, .closeIn, .exit, .deq]
   revert this
   decide
+
+/-! #### The repair that was tried and withdrawn (exit rule `drain`)
+
+Handing the buffer to `out` before the goroutine returns loses nothing
+(`C01.pump_drain_no_loss`, `C01.pump_drain_fifo`) – but the goroutine then cannot return while
+anything is buffered (`C01.pump_drain_strands`): after `Close`, a writer whose consumer abandons
+the responses it is owed keeps a goroutine parked for ever, where the code as it is returns at
+once.  That violates C05, so the repair was withdrawn and the closed channel is made to *stand
+for* the discarded `dropped` responses instead (`Send`'s guard, C03). -/
+
+theorem C01.pump_drain_no_loss {α : Type} (h : List (Pump.Step α)) :
+    (Pump.runDrain ({} : Pump.P α) h).delivered ++ (Pump.runDrain ({} : Pump.P α) h).buf = (Pump.runDrain ({} : Pump.P α) h).pushed :=
+  (pump_run_inv ({} : Pump.P α) h (by simp) (by simp)).1
+
+theorem C01.pump_drain_fifo {α : Type} (h : List (Pump.Step α)) :
+    (Pump.runDrain ({} : Pump.P α) h).delivered <+: (Pump.runDrain ({} : Pump.P α) h).pushed ∧
+    ((Pump.runDrain ({} : Pump.P α) h).exited = true →
+      (Pump.runDrain ({} : Pump.P α) h).delivered = (Pump.runDrain ({} : Pump.P α) h).pushed ∧
+      (Pump.runDrain ({} : Pump.P α) h).inClosed = true) := by
+  obtain ⟨h1, h2⟩ := pump_run_inv ({} : Pump.P α) h (by simp) (by simp)
+  refine ⟨⟨_, h1⟩, fun he => ?_⟩
+  obtain ⟨hb, hc⟩ := h2 he
+  rw [hb, List.append_nil] at h1
+  exact ⟨h1, hc⟩
+
+/-- The cost of the drain: while anything is buffered the goroutine cannot return – `exit` is
+disabled, and only a consumer's `deq` shrinks the buffer (a closed writer accepts no `enq`). So
+with no consumer the goroutine stays parked for ever; with the code's rule it returns at once. -/
+theorem C01.pump_drain_strands {α : Type} (p : Pump.P α) (hb : p.buf ≠ []) :
+    Pump.stepDrain p .exit = p ∧
+    (p.inClosed = true → ∀ a, Pump.stepDrain p (.enq a) = p) ∧
+    (p.inClosed = true → (Pump.step p .exit).exited = true) := by
+  refine ⟨?_, ?_, ?_⟩
+  · simp only [Pump.stepDrain, Pump.stepR]
+    split
+    · rename_i hc
+      simp only [Bool.and_eq_true, List.isEmpty_iff] at hc
+      exact absurd hc.2 hb
+    · rfl
+  · intro hc a; simp [Pump.stepDrain, Pump.stepR, hc]
+  · intro hc; simp [Pump.step, Pump.stepR, hc]
 
 /-! ### Content: where an answer goes and what a response is made of (specification) -/
 
@@ -689,6 +772,13 @@ theorem C01.pump_no_loss_partial_nonvacuous :
     ∃ h : List (Pump.Step Nat), (Pump.run ({} : Pump.P Nat) h).inClosed = false ∧
       (Pump.run ({} : Pump.P Nat) h).delivered = [1, 2] ∧ (Pump.run ({} : Pump.P Nat) h).buf = [3] :=
   ⟨[.enq 1, .enq 2, .deq, .enq 3, .deq], by decide⟩
+
+/-- With the withdrawn repair: the writer is closed with two responses buffered, the goroutine
+tries to return at once and both are still delivered before it does. -/
+theorem C01.pump_drain_fifo_nonvacuous :
+    ∃ h : List (Pump.Step Nat), (Pump.runDrain ({} : Pump.P Nat) h).exited = true ∧
+      (Pump.runDrain ({} : Pump.P Nat) h).delivered = [7, 8] :=
+  ⟨[.enq 7, .enq 8, .closeIn, .exit, .deq, .exit, .deq, .exit], by decide⟩
 
 /-- Rows with an error among several answers, and rows without. -/
 theorem C01.join_nonvacuous :
